@@ -180,7 +180,7 @@ Definition handle (line : str) : str :=
 (* ====================================================================================
    End-to-end requests: a project tree (parsed YAML documents) + a command line. *)
 Require Import Laze.model.Path Laze.model.Hash Laze.model.Ninja Laze.model.Ctx Laze.model.Resolver
-        Laze.model.Imports Laze.model.Generate Laze.model.Load.
+        Laze.model.Imports Laze.model.Generate Laze.model.Load Laze.model.Checks.
 
 Definition rd_bool : rd bool := fun ts =>
   match ts with
@@ -331,6 +331,7 @@ Definition show_gen (g : gen_result) : str :=
   S_ " N " ++ show_dec (N.of_nat (length (gr_nobuilds g))) ++
   flat_map (fun x => S_ " " ++ hex (fst (fst x)) ++ S_ " " ++ hex (snd (fst x)) ++ S_ " " ++ show_nobuild (snd x))
            (gr_nobuilds g) ++
+  S_ " W " ++ (if wf_manifestb (gr_stmts g) (map bi_out (gr_builds g)) then S_ "1" else S_ "0") ++
   S_ " F " ++ hex (gr_file g).
 
 (* the count: partitioner of task_partitioner: the k-th (1-based) of n takes items i with i mod n = k-1 *)
@@ -338,7 +339,8 @@ Definition run_gen (EVt : str -> evr) (t : ytree) (c : cli) : res gen_result :=
   rbind (load t (S_ "laze-project.yml")) (fun b =>
   rbind (cli_selects c) (fun sel =>
   rbind (cli_env c) (fun cenv =>
-  generate siphash13 EVt b (cl_le c) (cl_builders c) (cl_apps c) (cl_local c) (fun _ _ => true)
+  generate siphash13 EVt b (cl_le c) (cl_builders c) (cl_apps c) (cl_local c)
+           (match cl_partition c with Some (_, m, n) => PCount (N.to_nat m) (N.to_nat n) | None => PNone end)
            sel (cl_disable c) cenv))).
 
 Definition handle_e2e (cmd : str) (ts : list str) : option str :=
